@@ -80,7 +80,11 @@ fn check_receiver_clone_and_last_drop(n: usize) {
     drop(r);
     assert!(closed(&s) == (n == 1 || pre_closed), "[C11] the channel closes implicitly exactly when the LAST receiver handle is dropped");
     let left = s.inner.channel.inner.lock().buffer.len();
-    assert!(left == (if n == 1 { 0 } else { 1 }), "[C11] dropping the last receiver discards the buffered values immediately (and only then)");
+    if n == 1 {
+        assert!(left == 0, "[C11] dropping the last receiver discards the buffered values immediately");
+    } else {
+        assert!(left == 1, "[C08] [C11] buffered values are never discarded while another receiver can still reach them");
+    }
     core::mem::forget(s);
 }
 
